@@ -5,16 +5,18 @@ def _t(id, kind, elem=-1, impl=(), isErr=False):
 
 PTRS = list(range(10, 18))           # *T0..*T7
 IFACES = [20, 21, 22]
-IMPLS = {10: [20, 22], 11: [20, 21, 22], 12: [21, 22], 13: [22], 14: [22], 15: [22], 16: [22], 17: [22]}
+IMPLS = {10: [20, 22, 23], 11: [20, 21, 22, 23], 12: [21, 22], 13: [22], 14: [22], 15: [22], 16: [22], 17: [22]}
 
 TYPES = [
     _t(0, "iface", isErr=True), _t(1, "struct"), _t(2, "struct"), _t(3, "ptr", 1), _t(4, "ptr", 2),
+    _t(5, "iface", isErr=True),      # EI: a user-defined interface embedding error
 ]
 for p in PTRS:
     TYPES.append(_t(p, "ptr", -1, IMPLS[p]))
 TYPES.append(_t(19, "struct"))
 for i in IFACES:
     TYPES.append(_t(i, "iface", -1, [i]))
+TYPES.append(_t(23, "iface", -1, [20, 22, 23]))   # I3 = interface{ MI0(); MI2() }
 for n in range(8):
     TYPES.append(_t(30 + n, "slice", 10 + n))
 TYPES.append(_t(38, "slice", 19))
